@@ -176,8 +176,12 @@ class ProbeNode(BaseNode):
 
     def step(self, ss: StepState):
         new_ss, out, h0, h1 = core_step(ss, self.hash_recv)
+        # this step function belongs to the node object `self` (a per-instance Python attribute, constant in the traced program): it must only
+        # ever be executed on its own node's state; the host trace attributes the execution to the object whose step ran
+        own = (ss.state.idx != jnp.int32(self.idx)).astype(jnp.int32)
+        new_ss = new_ss.replace(state=new_ss.state.replace(bad=new_ss.state.bad + own))
         if self.trace:
-            args = [ss.state.idx, jnp.asarray(ss.eps, jnp.int32), jnp.asarray(ss.seq, jnp.int32), jnp.asarray(ss.ts, jnp.float32),
+            args = [jnp.int32(self.idx), jnp.asarray(ss.eps, jnp.int32), jnp.asarray(ss.seq, jnp.int32), jnp.asarray(ss.ts, jnp.float32),
                     jax.random.key_data(ss.rng) if jnp.issubdtype(ss.rng.dtype, jax.dtypes.prng_key) else ss.rng, h0, h1]
             for name in sorted(ss.inputs.keys()):
                 i = ss.inputs[name]
